@@ -47,7 +47,7 @@ impl Params {
     where
         F: Fn(u64, &mut Outcome) + Sync,
     {
-        if self.lite && (gen.ends_with("-giant") || gen.ends_with("-scale") || gen.ends_with("-deep") || gen == "marathon") {
+        if self.lite && (gen.ends_with("-giant") || gen.ends_with("-colossal") || gen.ends_with("-scale") || gen.ends_with("-deep") || gen == "marathon") {
             return Outcome::default();
         }
         if self.san() && gen.contains("-exh") {
